@@ -2337,13 +2337,6 @@ class VM:
             try:
                 idx = int(key_str)
                 if idx >= 0 and str(idx) == key_str:
-                    if idx > len(obj._elements):
-                        # No holes: only existing elements and the next free
-                        # index can be written
-                        raise JSTypeError(
-                            f"Cannot set index {idx} of an array of length "
-                            f"{len(obj._elements)}: out-of-bound writes are not supported"
-                        )
                     obj.set_index(idx, value)
                     return
             except ValueError:
